@@ -165,7 +165,7 @@ Definition rtnext_case_default : list cstmt :=
    SIf "if#4" (site NEXT "if#4")
      [SSet "set:iterator->_arg#0" "iterator->_arg" (site NEXT "set:iterator->_arg#0");
       SSet "set:iterator->current_namespace#0" "iterator->current_namespace" (site NEXT "set:iterator->current_namespace#0");
-      SOther "GotoStmt"] [];
+      SOther "goto next_entry"] [];
    SBreak].
 
 Lemma rtnext_switch0_shape :
@@ -215,7 +215,7 @@ Lemma rtnext_loop_body_keys :
 Proof. reflexivity. Qed.
 
 (* if#1's branch is the goto: not a site *)
-Lemma rtnext_if1_branch : nth 6 rtnext_loop_body SBreak = SIf "if#1" (site NEXT "if#1") [SOther "GotoStmt"] [].
+Lemma rtnext_if1_branch : nth 6 rtnext_loop_body SBreak = SIf "if#1" (site NEXT "if#1") [SOther "goto next_entry"] [].
 Proof. reflexivity. Qed.
 
 (* ---- the default case: namespace and table.  ns = iterator->current_namespace (an address), rns = &radiotap_ns.
@@ -504,12 +504,12 @@ Definition rtnext_case2_vendor : list cstmt :=
    SSet "set:iterator->is_radiotap_ns#0" "iterator->is_radiotap_ns" (site NEXT "set:iterator->is_radiotap_ns#0");
    SSet "set:iterator->this_arg_index#1" "iterator->this_arg_index" (site NEXT "set:iterator->this_arg_index#1");
    SIf "if#10" (site NEXT "if#10") [SSet "set:hit#0" "hit" (site NEXT "set:hit#0")] [];
-   SOther "GotoStmt"].
+   SOther "goto next_entry"].
 Definition rtnext_case2_rtns : list cstmt :=
   [SSet "set:iterator->_reset_on_ext#1" "iterator->_reset_on_ext" (site NEXT "set:iterator->_reset_on_ext#1");
    SSet "set:iterator->current_namespace#1" "iterator->current_namespace" (site NEXT "set:iterator->current_namespace#1");
    SSet "set:iterator->is_radiotap_ns#1" "iterator->is_radiotap_ns" (site NEXT "set:iterator->is_radiotap_ns#1");
-   SOther "GotoStmt"].
+   SOther "goto next_entry"].
 Definition rtnext_case2_ext : list cstmt :=
   [SCall "call:__uint32_identity#0" "__uint32_identity" [CLoad (mkty false 32) (CVar (mkty false 64) "iterator->_next_bitmap")];
    SSet "set:iterator->_bitmap_shifter#0" "iterator->_bitmap_shifter" (site NEXT "set:iterator->_bitmap_shifter#0");
@@ -585,6 +585,14 @@ Proof.
   repeat split; try reflexivity; site_unfold NEXT; rewrite ?Hnb, ?Hrs, ?Hi; wrap_ids; try reflexivity.
   cbv beta iota. rewrite (ld32 m h buf) by (assumption || lia). cbv beta iota. wrap_ids. reflexivity.
 Qed.
+
+(* find_ns(iterator, oui, subns), inlined: current_namespace = NULL; if (!iterator->_vns) return;  - libwifi registers no vendor
+   namespaces (vns = NULL), so the search loop behind it is not reached; model: r_ns := false on the vendor path *)
+Lemma site_rtnext_find_ns rho vns :
+  rho "iterator->_vns" = vns -> 0 <= vns < 2 ^ 64 ->
+  ceval rho m (site NEXT "find_ns#0:set:iterator->current_namespace#0") = Some 0 /\
+  ceval rho m (site NEXT "find_ns#0:if#0") = Some (b2z (vns =? 0)).
+Proof. intros <- Hv; nums. split; [reflexivity | ]. site_unfold NEXT. wrap_ids. reflexivity. Qed.
 
 (* iterator->_next_bitmap++ (a uint32_t pointer): the address moves by 4 - the model's r_nextbm it + 4 *)
 Lemma site_rtnext_next_bitmap_step rho nb :
@@ -827,7 +835,11 @@ Theorem rtnext_sites_covered :
   ; "if#5"; "upd:iterator->_arg#0"                                                           (* site_rtnext_if5_arg *)
   ; "if#6"                                                                                   (* site_rtnext_switch *)
   ; "if#7"; "ret#2"                                                                          (* site_rtnext_if7, site_rtnext_bounds_below_header *)
-  ; "set:oui#0"; "set:subns#0"; "set:vnslen#0"                                               (* site_rtnext_vendor_loads, site_rtnext_oui_value *)
+  ; "set:oui#0"; "set:subns#0"                                                               (* site_rtnext_vendor_loads, site_rtnext_oui_value *)
+  ; "find_ns#0:set:iterator->current_namespace#0"; "find_ns#0:if#0"                          (* site_rtnext_find_ns (find_ns inlined: no vendor namespaces registered) *)
+  ; "find_ns#0:set:find_ns#0$i#0"; "find_ns#0:loop#0"; "find_ns#0:upd:find_ns#0$i#0"; "find_ns#0:if#1"; "find_ns#0:if#2"
+  ; "find_ns#0:set:iterator->current_namespace#1"                                            (* the search loop: not reached with _vns = NULL *)
+  ; "set:vnslen#0"                                                                           (* site_rtnext_vendor_loads *)
   ; "set:iterator->_next_ns_data#0"; "if#8"; "upd:size#0"                                    (* site_rtnext_vendor_sizes *)
   ; "set:iterator->this_arg_index#0"; "set:iterator->this_arg#0"; "set:iterator->this_arg_size#0"; "upd:iterator->_arg#1"
                                                                                              (* site_rtnext_this_arg *)
@@ -841,7 +853,7 @@ Theorem rtnext_sites_covered :
   ; "set:iterator->_reset_on_ext#2"                                                          (* site_rtnext_ext_case, site_rtnext_next_bitmap_step *)
   ; "set:hit#1"; "upd:iterator->_bitmap_shifter#0"; "upd:iterator->_arg_index#1"             (* site_rtnext_next_entry *)
   ; "if#12"; "ret#4" ]                                                                       (* site_rtnext_if12; rtnext_after_switch1 *)
-  /\ length NEXT = 61%nat.
+  /\ length NEXT = 69%nat.
 Proof. split; reflexivity. Qed.
 
 Theorem rtinit_sites_covered :
@@ -884,7 +896,7 @@ Fixpoint others (s : cstmt) : list string :=
   end.
 
 Theorem rtiter_not_sites :
-  flat_map others body_ieee80211_radiotap_iterator_next = ["GotoStmt"; "GotoStmt"; "GotoStmt"; "GotoStmt"; "label next_entry"] /\
+  flat_map others body_ieee80211_radiotap_iterator_next = ["goto next_entry"; "goto next_entry"; "ContinueStmt"; "ContinueStmt"; "goto next_entry"; "goto next_entry"; "label next_entry"] /\
   flat_map others body_ieee80211_radiotap_iterator_init = [].
 Proof. split; reflexivity. Qed.
 
@@ -927,6 +939,7 @@ Print Assumptions site_rtnext_rtns_case.
 Print Assumptions site_rtnext_ext_case.
 Print Assumptions site_rtnext_next_entry.
 Print Assumptions site_rtnext_next_bitmap_step.
+Print Assumptions site_rtnext_find_ns.
 Print Assumptions site_rtinit_next_bitmap_step.
 Print Assumptions site_rtnext_index_overflow_refuted.
 Print Assumptions site_rtnext_if12.
